@@ -138,3 +138,23 @@ Check (C20_decompress_no_panic : forall ctx lls lld b total_len buflen,
   lp_IPV6_HDR <= buflen -> (forall t, total_len = Some t -> lp_IPV6_HDR <= t) ->
   lp_sixlowpan_to_ipv6 ctx lls lld b total_len buflen <> Panic /\
   forall d, lp_sixlowpan_to_ipv6 ctx lls lld b total_len buflen = Ok d -> blen d <= buflen).
+
+Check (C20_lowpan_roundtrip : forall d lls lld ctx c D buffer buflen,
+  lp_dgram_wf d lls lld -> lp_compressed d lls lld = Ok c -> lp_ipv6_bytes d = Ok D ->
+  bytes_ok buffer = true -> blen c <= blen buffer -> blen D <= buflen ->
+  lp_ipv6_to_sixlowpan d lls lld buffer = Ok (c ++ skipn (Z.to_nat (blen c)) buffer) /\
+  lp_sixlowpan_to_ipv6 ctx lls lld c None buflen = Ok D).
+
+Check (C20_lowpan_roundtrip_fragmented : forall d lls lld ctx c D ieee_len tag chdr uhdr,
+  lp_dgram_wf d lls lld -> lp_compressed d lls lld = Ok c -> lp_ipv6_bytes d = Ok D ->
+  lp_compressed_packet_size d lls lld = Ok (blen c, chdr, uhdr) ->
+  5 <= ieee_len <= 21 -> lpf_needs_frag (blen c) ieee_len = true -> blen c <= lpf_BUFFER ->
+  forall frames arrivals rfs now timeout ll_src ll_dst ss,
+    lpf_send ieee_len c chdr uhdr (lp_payload_len (ld_pl d)) tag = Ok frames ->
+    incl arrivals frames ->
+    map (lpf_rx_of_frame (fun buflen =>
+           lp_sixlowpan_to_ipv6 ctx lls lld (firstn (Z.to_nat (lpf_f1 ieee_len (uhdr - chdr))) c)
+                                (Some (blen D)) buflen)) arrivals = map Some rfs ->
+    Forall (slot_inv D (ll_src, ll_dst, blen D, tag)) ss ->
+    exists ss' ds, lpf_process_all now timeout ll_src ll_dst rfs ss = Ok (ss', ds) /\
+                   Forall (slot_inv D (ll_src, ll_dst, blen D, tag)) ss' /\ Forall (fun x => x = D) ds).
